@@ -383,6 +383,12 @@ func (x *Exec) assumeTypeInv(st *State, v Value) {
 		x.vc.assumeOnce(And(m.cmp(token.LEQ, m.ix(0), v.Len, ix), m.cmp(token.LEQ, v.Len, m.lit(pow2(56), ix), ix)))
 	case KPtr:
 		x.vc.assumeOnce(And(iLe(IntLit(0), v.Loc.Root), iLt(v.Loc.Root, x.alloc(st))))
+		// typed heap: a non-nil *T (T a struct) refers to an object allocated as a T
+		if v.isCanonical() && !st.Spec {
+			if _, ok := v.Loc.T.Underlying().(*types.Struct); ok {
+				x.vc.assumeOnce(Or(Eq(v.Loc.Root, nilRef), Select(x.isType(st, v.Loc.T), v.Loc.Root)))
+			}
+		}
 	case KMap, KIface:
 		x.vc.assumeOnce(And(iLe(IntLit(0), v.X), iLt(v.X, x.alloc(st))))
 	}
@@ -907,13 +913,9 @@ func (x *Exec) loopModified(fr *Frame, li *LoopInfo) (prefixes map[string]bool, 
 					prefixes["$alloc"] = true
 				}
 			case *ssa.Alloc:
-				if i.Heap {
-					prefixes["$alloc"] = true
-					prefixes[canonPrefix(i.Type().Underlying().(*types.Pointer).Elem())] = true
-				} else {
-					prefixes["$alloc"] = true
-					prefixes[canonPrefix(i.Type().Underlying().(*types.Pointer).Elem())] = true
-				}
+				prefixes["$alloc"] = true
+				prefixes[canonPrefix(i.Type().Underlying().(*types.Pointer).Elem())] = true
+				prefixes[isTypeComp(i.Type().Underlying().(*types.Pointer).Elem())] = true
 			case *ssa.MakeSlice:
 				prefixes["$alloc"] = true
 				prefixes["Mem."+typeKey(i.Type().Underlying().(*types.Slice).Elem())] = true
